@@ -163,6 +163,23 @@ pub proof fn lemma_glob<P: Prefix, T>(t: Seq<Node<P, T>>, live: ISet<int>)
     lemma_glob_par(t, live, par);
 }
 
+/// point-wise versions of (U) and (D): they do not bring the pair-triggered quantifiers into scope
+pub proof fn lemma_desc<P: Prefix, T>(t: Seq<Node<P, T>>, live: ISet<int>, i: int, n: int)
+    requires twf_live(t, live), live.contains(i), live.contains(n), spre(kb(t, i), kb(t, n))
+    ensures desc_ok(t, live, i, n)
+{
+    let par = lemma_twf_par(t, live);
+    lemma_D(t, live, par, i, n);
+}
+
+pub proof fn lemma_uniq<P: Prefix, T>(t: Seq<Node<P, T>>, live: ISet<int>, i: int, j: int)
+    requires twf_live(t, live), live.contains(i), live.contains(j), kb(t, i) =~= kb(t, j)
+    ensures i == j
+{
+    let par = lemma_twf_par(t, live);
+    lemma_U(t, live, par, i, j);
+}
+
 // ---- uniqueness of the live set: it is the set of nodes reachable from the root ----
 
 pub proof fn lemma_live_sub<P: Prefix, T>(t: Seq<Node<P, T>>, l1: ISet<int>, p1: spec_fn(int) -> int, l2: ISet<int>, p2: spec_fn(int) -> int, i: int)
